@@ -210,6 +210,7 @@ Settle2Inv == P!Settle2(cfg, Obs)
 LiftClosesInv == P!LiftCloses(cfg, Obs)
 NoEarlyCloseInv == P!NoEarlyClose(cfg, Obs)
 NoStallInv == P!NoStall(cfg, Obs)
+DoneMeansDoneInv == P!DoneMeansDone(cfg, Obs)
 \* liveness (under fairness of the library): once cancelled with the input closed and no call held, the stage is gone for good
 Gone == LiveCount = 0
 EventuallyGone == (env.cancelled /\ env.closedIn) ~> Gone
